@@ -18,7 +18,7 @@ Other == <<<<95, 115, 118, 99, 50>>, <<95, 116, 99, 112>>, <<108, 111, 99, 97, 1
 InstNames == {<<97>>, <<98>>, <<97, 98>>, <<112, 49>>, <<109, 101>>, <<65>>, <<65, 98>>, <<77, 101>>,
               <<99, 233>>, <<252, 98, 101, 114>>}          \* c + e-acute, u-umlaut + ber: names are Unicode text
 Ips == {<<4, 10, 0, 0, 1>>, <<4, 10, 0, 0, 2>>, <<6, 0, 0, 0, 0, 0, 0, 0, 0, 0, 0, 0, 0, 0, 0, 0, 1>>, <<6, 0, 0, 0, 0, 0, 0, 0, 0, 0, 0, 255, 255, 10, 0, 0, 1>>}
-Ports == {80, 8080}
+Ports == {80, 8080, 0, 65535}     \* (0 and 65535 are ports like any other)
 \* k, path, ab, and keys / values with leading, trailing and lone spaces (attribute text is carried verbatim)
 AKeys == {<<107>>, <<112, 97, 116, 104>>, <<97, 98>>, <<107, 32>>, <<32, 97, 98>>}
 AVals == {<<"none">>, <<"some", <<>>>>, <<"some", <<118>>>>, <<"some", <<120, 61, 121>>>>, <<"some", <<32, 118, 32>>>>, <<"some", <<32>>>>}
